@@ -1,287 +1,9 @@
 #!/venv/bin/python
-"""Development aid: behaviour-preserving stress of the checkers.  For every function a check
-says it analysed, alpha-rename all of that function's local variables (targets of
-assignments / loops / with / except / comprehensions; not parameters, not names declared
-global/nonlocal, not attributes) in an in-memory overlay and re-run the check: it must stay
-silent.  Prints every (check, function) for which it does not."""
-import ast
-import os
+"""Development aid: behaviour-preserving stress of the checkers (see vstatic/stress.py).
+usage: tools/rename_robustness.py [C05 ...] [--all] [--rename] [--noop] [--annotate] [--hoist]"""
 import sys
-from concurrent.futures import ProcessPoolExecutor
 
 sys.path.insert(0, "/verif")
-from vstatic.__main__ import available  # noqa
-from vstatic.core.program import Program, repo_root  # noqa
-from vstatic.core.report import Context  # noqa
-import importlib  # noqa
+from vstatic.stress import main  # noqa
 
-
-def rename_function(src: str, qual: str):
-    tree = ast.parse(src)
-    parts = qual.split(".")
-    body = tree.body
-    node = None
-    for p in parts:
-        node = None
-        for st in body:
-            if isinstance(st, (ast.FunctionDef, ast.ClassDef)) and st.name == p:
-                node = st
-                break
-        if node is None:
-            return None
-        body = node.body
-    if not isinstance(node, ast.FunctionDef):
-        return None
-    params = {a.arg for a in node.args.posonlyargs + node.args.args + node.args.kwonlyargs}
-    if node.args.vararg:
-        params.add(node.args.vararg.arg)
-    if node.args.kwarg:
-        params.add(node.args.kwarg.arg)
-    declared = set()
-    stores = set()
-    for n in ast.walk(node):
-        if isinstance(n, (ast.Global, ast.Nonlocal)):
-            declared.update(n.names)
-        if isinstance(n, ast.Name) and isinstance(n.ctx, (ast.Store, ast.Del)):
-            stores.add(n.id)
-        if isinstance(n, ast.ExceptHandler) and n.name:
-            pass  # handler names are not Name nodes; leave them
-        if isinstance(n, (ast.FunctionDef, ast.ClassDef)) and n is not node:
-            stores.discard(n.name)
-    # nested function parameters keep their names
-    for n in ast.walk(node):
-        if isinstance(n, (ast.FunctionDef, ast.Lambda)) and n is not node:
-            for a in n.args.posonlyargs + n.args.args + n.args.kwonlyargs:
-                stores.discard(a.arg)
-    targets = {s for s in stores if s not in params and s not in declared and not s.startswith("__") and s != "_"}
-    if not targets:
-        return None
-    edits = []
-    for n in ast.walk(node):
-        if isinstance(n, ast.Name) and n.id in targets:
-            edits.append((n.lineno, n.col_offset, n.id))
-        # keyword arguments named like a local are not Names; nothing to do
-    lines = src.split("\n")
-    for lineno, col, name in sorted(edits, reverse=True):
-        b = lines[lineno - 1].encode("utf-8")
-        if b[col: col + len(name)] != name.encode():
-            return None
-        b = b[:col] + (name + "_r").encode() + b[col + len(name):]
-        lines[lineno - 1] = b.decode("utf-8")
-    new = "\n".join(lines)
-    try:
-        compile(new, "x", "exec")
-    except SyntaxError:
-        return None
-    return new
-
-
-def _locate(tree, qual):
-    parts = qual.split(".")
-    body = tree.body
-    node = None
-    for p in parts:
-        node = None
-        for st in body:
-            if isinstance(st, (ast.FunctionDef, ast.ClassDef)) and st.name == p:
-                node = st
-                break
-        if node is None:
-            return None
-        body = node.body
-    return node if isinstance(node, ast.FunctionDef) else None
-
-
-def noop_function(src: str, qual: str):
-    """Insert a `pass` after every simple statement of the function (not after leaving
-    statements): dominance / follow relations must not depend on statement adjacency."""
-    tree = ast.parse(src)
-    node = _locate(tree, qual)
-    if node is None:
-        return None
-    lines = src.split("\n")
-    inserts = []
-    for n in ast.walk(node):
-        if isinstance(n, (ast.Assign, ast.AugAssign, ast.AnnAssign, ast.Expr)) and n is not node:
-            if isinstance(n, ast.Expr) and isinstance(n.value, ast.Constant) and isinstance(n.value.value, str):
-                continue
-            if isinstance(n, ast.Expr) and isinstance(n.value, (ast.Yield, ast.YieldFrom)):
-                pass
-            inserts.append((n.end_lineno, n.col_offset))
-    if not inserts:
-        return None
-    for end, col in sorted(set(inserts), reverse=True):
-        lines.insert(end, " " * col + "pass")
-    new = "\n".join(lines)
-    try:
-        compile(new, "x", "exec")
-    except SyntaxError:
-        return None
-    return new
-
-
-def annotate_function(src: str, qual: str):
-    """Turn every `name = value` (single plain-name target) of the function into an annotated
-    assignment `name: object = value`."""
-    tree = ast.parse(src)
-    node = _locate(tree, qual)
-    if node is None:
-        return None
-    declared = set()
-    for n in ast.walk(node):
-        if isinstance(n, (ast.Global, ast.Nonlocal)):
-            declared.update(n.names)
-    lines = src.split("\n")
-    edits = []
-    seen_ann = set()
-    for n in ast.walk(node):
-        if isinstance(n, ast.AnnAssign) and isinstance(n.target, ast.Name):
-            seen_ann.add(n.target.id)
-    for n in ast.walk(node):
-        if isinstance(n, ast.Assign) and len(n.targets) == 1 and isinstance(n.targets[0], ast.Name) and n.targets[0].id not in declared \
-                and n.targets[0].id not in seen_ann:
-            t = n.targets[0]
-            edits.append((t.lineno, t.end_col_offset))
-            seen_ann.add(t.id)  # annotate each name once (re-annotation is legal but noisy)
-    if not edits:
-        return None
-    for lineno, col in sorted(edits, reverse=True):
-        b = lines[lineno - 1].encode("utf-8")
-        b = b[:col] + b": object" + b[col:]
-        lines[lineno - 1] = b.decode("utf-8")
-    new = "\n".join(lines)
-    try:
-        compile(new, "x", "exec")
-    except SyntaxError:
-        return None
-    return new
-
-
-def _simple_func(e) -> bool:
-    while isinstance(e, ast.Attribute):
-        e = e.value
-    return isinstance(e, ast.Name)
-
-
-def _offsets(src: str):
-    offs = [0]
-    for line in src.split("\n"):
-        offs.append(offs[-1] + len(line.encode("utf-8")) + 1)
-    return offs
-
-
-def hoist_function(src: str, qual: str):
-    """Extract-local refactoring: `return E` becomes `_hN = E; return _hN`, and the first
-    positional argument of the outermost call of a simple statement is bound to a fresh
-    local first (the callee expression is a plain attribute chain, so evaluation order of
-    anything with an effect is unchanged)."""
-    tree = ast.parse(src)
-    node = _locate(tree, qual)
-    if node is None:
-        return None
-    bsrc = src.encode("utf-8")
-    offs = _offsets(src)
-
-    def span(n):
-        return offs[n.lineno - 1] + n.col_offset, offs[n.end_lineno - 1] + n.end_col_offset
-
-    nested = set()
-    for n in ast.walk(node):
-        if isinstance(n, (ast.FunctionDef, ast.Lambda, ast.ClassDef)) and n is not node:
-            for x in ast.walk(n):
-                nested.add(id(x))
-    edits = []  # (stmt, expr)
-    k = 0
-    for st in ast.walk(node):
-        if id(st) in nested or st is node:
-            continue
-        target = None
-        if isinstance(st, ast.Return) and st.value is not None and not isinstance(st.value, (ast.Name, ast.Constant)):
-            target = st.value
-        elif isinstance(st, (ast.Assign, ast.AnnAssign, ast.Expr)) and isinstance(getattr(st, "value", None), ast.Call):
-            c = st.value
-            if _simple_func(c.func) and c.args and not isinstance(c.args[0], (ast.Name, ast.Constant, ast.Starred, ast.GeneratorExp)):
-                target = c.args[0]
-        if target is None:
-            continue
-        if any(isinstance(x, (ast.Yield, ast.YieldFrom, ast.Await, ast.NamedExpr)) for x in ast.walk(target)):
-            continue
-        edits.append((st, target))
-    if not edits:
-        return None
-    out = bsrc
-    for st, target in sorted(edits, key=lambda e: span(e[0])[0], reverse=True):
-        k += 1
-        name = f"_h{k}".encode()
-        a, b = span(target)
-        sa = offs[st.lineno - 1]
-        indent = b" " * st.col_offset
-        expr = out[a:b]
-        if b"\n" in expr:
-            expr = b"(" + expr + b")"
-        out = out[:sa] + indent + name + b" = " + expr + b"\n" + out[sa:a] + name + out[b:]
-    new = out.decode("utf-8")
-    try:
-        compile(new, "x", "exec")
-    except SyntaxError:
-        return None
-    return new
-
-
-MODE = {"rename": None, "noop": None, "annotate": None, "hoist": None}
-
-
-def job(args):
-    pid, rel, qual, mode = args
-    root = repo_root()
-    src = open(os.path.join(root, rel), encoding="utf-8").read()
-    new = {"rename": rename_function, "noop": noop_function, "annotate": annotate_function, "hoist": hoist_function}[mode](src, qual)
-    if new is None:
-        return (pid, qual + "/" + mode, "skipped", "")
-    P = Program(overlay={rel: new})
-    mod = importlib.import_module(f"vstatic.checks.{pid}")
-    ctx = Context(pid, "quick", P, quiet=True)
-    try:
-        mod.run(ctx)
-    except Exception as e:
-        return (pid, qual + "/" + mode, "error", f"{type(e).__name__}: {e}"[:200])
-    if ctx.violations:
-        return (pid, qual + "/" + mode, "FALSE-ALARM", "; ".join(f"{v.rule}: {v.msg[:80]}" for v in ctx.violations[:3]))
-    if ctx.shortfalls:
-        return (pid, qual + "/" + mode, "error", ctx.shortfalls[0][:160])
-    return (pid, qual + "/" + mode, "ok", "")
-
-
-def main():
-    P = Program()
-    index = {fi.qualname: fi for fi in P.all_functions()}
-    jobs = []
-    allf = "--all" in sys.argv
-    modes = [m for m in ("rename", "noop", "annotate", "hoist") if "--" + m in sys.argv] or ["rename"]
-    pids = [a for a in sys.argv[1:] if not a.startswith("--")] or available()
-    for pid in pids:
-        mod = importlib.import_module(f"vstatic.checks.{pid}")
-        ctx = Context(pid, "quick", P, quiet=True)
-        mod.run(ctx)
-        # by default only the functions the check declared as analysed; --all: every function of the package
-        names = sorted(index) if allf else sorted(ctx.functions_analysed)
-        for q in names:
-            fi = index.get(q)
-            if fi is None or fi.cls is None and "." in q and q.split(".")[0] not in ("tree_searcher", "utils"):
-                fi = index.get(q)
-            if fi is None:
-                continue
-            rel = os.path.relpath(fi.module.path, P.root)
-            qual = fi.qualname if fi.cls is not None else fi.name
-            for mode in modes:
-                jobs.append((pid, rel, qual, mode))
-    with ProcessPoolExecutor(max_workers=16) as ex:
-        res = list(ex.map(job, jobs))
-    bad = [r for r in res if r[2] in ("FALSE-ALARM", "error")]
-    for r in bad:
-        print(*r)
-    print(f"{len(res)} renamed functions, {sum(1 for r in res if r[2]=='ok')} silent, {sum(1 for r in res if r[2]=='skipped')} skipped, {len(bad)} problems")
-
-
-if __name__ == "__main__":
-    main()
+main()
